@@ -262,17 +262,39 @@ impl Ord for Name {
         )
         .position(|(a, b)| a != b);
 
-        let Some(suffix_len) = suffix_len else {
-            // 'iter::zip()' simply ignores unequal iterators, stopping when
-            // either iterator finishes. Even though the two names had no
-            // mismatching bytes, one could be longer than the other.
-            return self.len().cmp(&that.len());
+        let suffix_len = match suffix_len {
+            Some(suffix_len) => suffix_len,
+            None => {
+                // 'iter::zip()' simply ignores unequal iterators, stopping
+                // when either iterator finishes. Even though the two names
+                // had no mismatching bytes, one could be longer than the
+                // other. The shorter name then is a suffix of the longer
+                // one only if it starts at one of its label boundaries.
+                let (short, long) = if self.len() <= that.len() {
+                    (self, that)
+                } else {
+                    (that, self)
+                };
+                let mut labels = long.labels();
+                while labels.remaining().len() > short.len() {
+                    labels.next();
+                }
+                if labels.remaining().len() == short.len() {
+                    return self.len().cmp(&that.len());
+                }
+
+                // The bytes of the shorter name merely end a label of the
+                // longer name, so the names differ in that label. The root
+                // name is a suffix of every name, so the shorter name has
+                // at least two bytes.
+                short.len() - 1
+            }
         };
 
         // Prepare for forward traversal.
         let (mut lhs, mut rhs) = (self.labels(), that.labels());
-        // SAFETY: There is at least one unequal byte, and it cannot be the
-        //   root label, so both names have at least one additional label.
+        // SAFETY: The names are not equal and neither is a suffix of the
+        //   other, so both names have at least one label before the root.
         let mut prev = unsafe {
             (lhs.next().unwrap_unchecked(), rhs.next().unwrap_unchecked())
         };
